@@ -544,7 +544,7 @@ impl Session {
                                 out.ret = ret_json("EntryTooLarge");
                                 out.ret["a"] = json!(enc(entry_size));
                                 out.ret["b"] = json!(enc(max_size));
-                                out.ret["key"] = json!(key.tok);
+                                out.ret["key"] = json!(0 + key.tok);
                                 out.ret["val"] = json!(value.tok);
                                 out.ret["d"] = json!(value.heap);
                                 out.handed.push(key.tok);
@@ -620,7 +620,7 @@ impl Session {
                         };
                         if let Some((kk, v)) = r {
                             out.ret = ret_json("Some");
-                            out.ret["key"] = json!(kk.tok);
+                            out.ret["key"] = json!(0 + kk.tok);
                             out.ret["val"] = json!(v.tok);
                             out.ret["d"] = json!(v.heap);
                         }
@@ -659,7 +659,7 @@ impl Session {
                         };
                         if let Some((kk, v)) = r {
                             out.ret = ret_json("Some");
-                            out.ret["key"] = json!(kk.tok);
+                            out.ret["key"] = json!(0 + kk.tok);
                             out.ret["val"] = json!(v.tok);
                             out.ret["d"] = json!(v.heap);
                             out.handed.push(kk.tok);
@@ -696,7 +696,7 @@ impl Session {
                                 out.ret["a"] = json!(enc(old_entry_size));
                                 out.ret["b"] = json!(enc(new_entry_size));
                                 out.ret["c"] = json!(enc(max_size));
-                                out.ret["key"] = json!(key.tok);
+                                out.ret["key"] = json!(0 + key.tok);
                                 out.ret["val"] = json!(value.tok);
                                 out.ret["d"] = json!(value.heap);
                                 out.handed.push(key.tok);
@@ -1108,6 +1108,25 @@ impl Session {
         for id in [c, d] {
             if let Some(m) = new_prev.get(&id) {
                 for t in m.keys() { stored.insert(*t); }
+            }
+        }
+        // objects of a type without a destructor (type shapes plainkey / plainval): nobody
+        // reports their end, so what is neither stored nor handed out afterwards counts as
+        // dropped (a leak or a double drop of plain data is not observable - and harmless)
+        let mut window_set = window_set;
+        if !(TRACK_K && TRACK_V) {
+            let mut extra: Vec<Value> = Vec::new();
+            for t in before.iter() {
+                if reg_state(*t) == Some(TokState::Untracked) && !stored.contains(t)
+                        && !handed_set.contains(t) && window_set.insert(*t) {
+                    extra.push(self.resolve(c, *t, argk, argv));
+                }
+            }
+            if !extra.is_empty() {
+                let mut all: Vec<Value> = ev["dropped"].as_array().cloned().unwrap_or_default();
+                all.extend(extra);
+                all.sort_by_key(|v| v.to_string());
+                ev["dropped"] = json!(all);
             }
         }
         let mut dup = 0;
